@@ -2,12 +2,16 @@
 
 use crate::core::{RunCtx, harness_error};
 
+#[cfg(feature = "sdk")]
 pub mod c01;
+#[cfg(feature = "sdk")]
 pub mod c02;
+#[cfg(feature = "sdk")]
 pub mod c03;
 pub mod c04;
 pub mod c05;
 pub mod c06;
+#[cfg(feature = "sdk")]
 pub mod c07;
 pub mod c08;
 pub mod c09;
@@ -16,11 +20,16 @@ pub mod c11;
 pub mod c12;
 pub mod c13;
 pub mod c14;
+#[cfg(feature = "sdk")]
 pub mod c15;
 pub mod c16;
+#[cfg(feature = "sdk")]
 pub mod c17;
+#[cfg(feature = "sdk")]
 pub mod c18;
+#[cfg(feature = "sdk")]
 pub mod c19;
+#[cfg(feature = "sdk")]
 pub mod c19crash;
 pub mod c20;
 
@@ -28,12 +37,16 @@ pub const ALL: &[&str] = &["C01", "C02", "C03", "C04", "C05", "C06", "C07", "C08
 
 pub fn run(id: &str, ctx: &RunCtx) -> i32 {
     match id {
+        #[cfg(feature = "sdk")]
         "C01" => c01::run(ctx),
+        #[cfg(feature = "sdk")]
         "C02" => c02::run(ctx),
+        #[cfg(feature = "sdk")]
         "C03" => c03::run(ctx),
         "C04" => c04::run(ctx),
         "C05" => c05::run(ctx),
         "C06" => c06::run(ctx),
+        #[cfg(feature = "sdk")]
         "C07" => c07::run(ctx),
         "C08" => c08::run(ctx),
         "C09" => c09::run(ctx),
@@ -42,10 +55,14 @@ pub fn run(id: &str, ctx: &RunCtx) -> i32 {
         "C12" => c12::run(ctx),
         "C13" => c13::run(ctx),
         "C14" => c14::run(ctx),
+        #[cfg(feature = "sdk")]
         "C15" => c15::run(ctx),
         "C16" => c16::run(ctx),
+        #[cfg(feature = "sdk")]
         "C17" => c17::run(ctx),
+        #[cfg(feature = "sdk")]
         "C18" => c18::run(ctx),
+        #[cfg(feature = "sdk")]
         "C19" => c19::run(ctx),
         "C20" => c20::run(ctx),
         _ => harness_error(&format!("unknown property id {id}")),
@@ -68,12 +85,16 @@ pub fn replay(path: &str) -> i32 {
     };
     let prop = v["property"].as_str().unwrap_or("");
     match prop {
+        #[cfg(feature = "sdk")]
         "C01" => c01::replay(&v),
+        #[cfg(feature = "sdk")]
         "C02" => c02::replay(&v),
+        #[cfg(feature = "sdk")]
         "C03" => c03::replay(&v),
         "C04" => c04::replay(&v),
         "C05" => c05::replay(&v),
         "C06" => c06::replay(&v),
+        #[cfg(feature = "sdk")]
         "C07" => c07::replay(&v),
         "C08" => c08::replay(&v),
         "C09" => c09::replay(&v),
@@ -82,10 +103,14 @@ pub fn replay(path: &str) -> i32 {
         "C12" => c12::replay(&v),
         "C13" => c13::replay(&v),
         "C14" => c14::replay(&v),
+        #[cfg(feature = "sdk")]
         "C15" => c15::replay(&v),
         "C16" => c16::replay(&v),
+        #[cfg(feature = "sdk")]
         "C17" => c17::replay(&v),
+        #[cfg(feature = "sdk")]
         "C18" => c18::replay(&v),
+        #[cfg(feature = "sdk")]
         "C19" => c19::replay(&v),
         "C20" => c20::replay(&v),
         _ => harness_error(&format!("no replay for property {prop:?}")),
